@@ -133,7 +133,7 @@ theorem reqCands_subset (U : Universe) (hw : CandsKnown U) (r : Req) (c : Nat) (
   rw [List.mem_flatMap] at hc
   obtain ⟨vs, _, hcv⟩ := hc
   unfold Universe.candsOf at hcv
-  rw [List.mem_filter] at hcv
+  rw [Universe.mem_reord, List.mem_filter] at hcv
   have := hcv.1
   unfold Universe.pkgCands at this
   split at this
